@@ -33,6 +33,20 @@ type C11Plan struct {
 	Sample    []int        `json:"sample,omitempty"`  // torn-write prefixes above 8 KiB, as positions in [0, 2^20)
 	ESample   []int        `json:"esample,omitempty"` // ENOSPC short-write lengths, as positions in [0, 2^20)
 	Fault     *simfs.Fault `json:"fault,omitempty"`
+	// Pre: the mailbox has a history: an earlier store (inbound | addout of
+	// message Pre.M) died at the chosen point; what that left behind is part of
+	// the contents the operation under test starts from.
+	Pre *C11Pre `json:"pre,omitempty"`
+}
+
+// C11Pre: Call selects one of the earlier operation's file-system calls (mod
+// their number); Torn > 0 and a write: the process died inside it after that
+// share of its bytes (position in [0, 2^20)), otherwise right after the call.
+type C11Pre struct {
+	K    string `json:"k"`
+	M    int    `json:"m"`
+	Call int    `json:"call"`
+	Torn int    `json:"torn,omitempty"`
 }
 
 // C11Item places message M (index into Msgs) in a folder before the operation.
@@ -189,6 +203,9 @@ func (x *c11ctx) setup(sim *core.Sim) (ok bool) {
 					}
 				}
 			}
+			if plan.Pre != nil {
+				x.earlierCrash(sim, disk, pick(plan.Pre.M))
+			}
 			x.baseline, err = loadAll(x.root)
 		})
 		if died != nil || pv != nil || err != nil {
@@ -239,6 +256,65 @@ func (x *c11ctx) setup(sim *core.Sim) (ok bool) {
 		return false
 	}
 	return true
+}
+
+// earlierCrash runs the plan's earlier store on the scenario's disk and lets it
+// die at the chosen call. The fault-free pilot on a clone tells which calls
+// there are. Nothing is judged here: if the crash leaves the mailbox unloadable
+// the scenario is unusable (the enumeration of that operation in its own
+// plans reports it).
+func (x *c11ctx) earlierCrash(sim *core.Sim, disk *simfs.FS, b *built) {
+	pre := x.plan.Pre
+	if b == nil || (pre.K != "inbound" && pre.K != "addout") {
+		return
+	}
+	run := func(d *simfs.FS, fault *simfs.Fault) (calls []simfs.Op, ok bool) {
+		simfs.Use(d)
+		defer simfs.Use(disk)
+		h := mailbox.NewDirHandler(x.root, false)
+		if h.Prepare() != nil {
+			return nil, false
+		}
+		m := b.fresh()
+		d.ResetLog()
+		if fault != nil {
+			d.SetFaults(*fault)
+		}
+		var err error
+		died, pv, _ := guard(func() {
+			if pre.K == "inbound" {
+				err = h.ProcessInbound(m)
+			} else {
+				err = h.AddOut(m)
+			}
+		})
+		calls = d.Log()
+		d.Revive()
+		d.ResetLog()
+		return calls, pv == nil && (fault != nil || (died == nil && err == nil))
+	}
+	// the earlier store was an ordinary one: of a message the mailbox did not hold yet
+	cur, err := loadAll(x.root)
+	if err != nil {
+		return
+	}
+	for _, f := range []string{"in", "out", "sent"} {
+		if _, have := cur[f][b.def.MID]; have && (f == "in") == (pre.K == "inbound") {
+			return
+		}
+	}
+	calls, ok := run(disk.Clone(), nil)
+	if !ok || len(calls) == 0 {
+		return
+	}
+	c := calls[mod(pre.Call, len(calls))]
+	fault := simfs.Fault{Kind: "crash", Call: c.Idx, Phase: "after"}
+	if c.Kind == "write" && pre.Torn > 0 && c.N > 0 {
+		fault = simfs.Fault{Kind: "crash", Call: c.Idx, Phase: "torn", Bytes: scale(pre.Torn, 0, c.N)}
+	}
+	run(disk, &fault)
+	sim.Probe("mailbox-with-leftovers-of-an-earlier-crash")
+	sim.Logf("earlier %s of %s died at call #%d %s %s (%s)", pre.K, b.def.MID, c.Idx, c.Kind, c.Path, fault.Phase)
 }
 
 // arm prepares the "process" that will perform the operation on disk d (handler
@@ -833,6 +909,17 @@ func genC11(tier string, r *core.Rand, run int) C11Plan {
 	case 4:
 		plan.Op = C11Op{K: "prepare"}
 		plan.State = nil
+	}
+	if plan.Op.K != "prepare" && r.Chance(0.35) {
+		// an earlier store of another message died; it is mostly the larger one
+		plan.Pre = &C11Pre{K: core.Choice(r, []string{"inbound", "inbound", "addout"}), M: r.Range(1, len(midUniverse)-1), Call: r.Intn(64)}
+		if r.Chance(0.4) {
+			plan.Pre.Torn = 1 + r.Intn(1<<20-1)
+		}
+		if r.Chance(0.6) {
+			d := genMsg(r, plan.Msgs[plan.Pre.M].MID, size*r.Range(2, 5)+r.Range(0, 200))
+			plan.Msgs[plan.Pre.M] = d
+		}
 	}
 	plan.Sample = core.Tape(r, 48, func() int { return r.Intn(1 << 20) })
 	plan.ESample = core.Tape(r, 16, func() int { return r.Intn(1 << 20) })
